@@ -260,7 +260,7 @@ def gen_cases(ctx):
     thorough = ctx.tier == "thorough"
     g = Gen(rng, thorough)
     cases = []
-    n_samples = 130 if not thorough else 1000
+    n_samples = 130 if not thorough else 700
     for _ in range(n_samples):
         tree, npri = g.tree()
         c = {"kind": "samples", "tree": tree, "npri": npri,
@@ -561,9 +561,6 @@ def oracle_samples(c, r):
                 if not plain or any(x not in exp_u for x in plain) or not any(unhex(x["ll"]) == maxll for x in plain) \
                         or len(plain) > 2:
                     fails.append(("latent", "values", "%s holds %s, latent samples are %s" % (route, plain, exp[:3])))
-                elif ref and [unhex(x["ll"]) for x in rows].count(maxll) == 1 and \
-                        sorted(map(json.dumps, plain)) != sorted(map(json.dumps, unsigned(latent_plain(r[ref])))):
-                    fails.append(("latent", "values", "%s differs from the minimised latent samples" % route))
     elif not r.get("latent_error"):
         fails.append(("latent", "missing", "no latent samples"))
     add("db", compare_view(orig, r["db_all"], "db_all"))
